@@ -38,7 +38,7 @@ def variants(rng, src: str):
     return out
 
 
-def run(res, ctx):
+def _run_props(res, ctx):
     rng = C.rng_for(res.seed, "C12")
     thorough = res.tier == "thorough"
     n_prog = 40 if thorough else 10
@@ -192,6 +192,41 @@ def run(res, ctx):
             if outs[False][1] + outs[False][2] != withheld:
                 res.violation("nosec + skipped_tests differ from the number of withheld findings (two nosec comments on the lines of one finding)",
                               {"program": src2, "withheld": withheld, "nosec": outs[False][1], "skipped_tests": outs[False][2]})
+        # ---- several findings of one string check on ONE line, and a run in which no file survives: counts = findings, totals = sums (seeded changes C12-m12: string
+        #      findings de-duplicated per (test, line) after they were counted; C12-m11: aggregate() skipped when no file was scanned successfully)
+        extra_dir = os.path.join(scratch.root, "extra12"); os.makedirs(extra_dir)
+        sets12 = {"same_line": {"s.py": "dirs = ['/tmp/a', '/var/tmp/b', '/dev/shm/c']\nif password == 'x' or token == 'x':\n    pass\nbind = ('0.0.0.0', '0.0.0.0')\n"
+                                        "q = 'SELECT * FROM t WHERE a = %s' % a + 'DELETE FROM t WHERE b = %s' % b\n", "plain.py": "a = '/tmp/x'\nb = '/tmp/y'\n"},
+                  "none_survives": {"old1.py": "print 'py2'\r\nx = 1\r\n# comment\r\nimport pickle  # nosec", "old2.py": "exec 'code'\ny = 2\n\n"},
+                  "one_survives": {"old1.py": "print 'py2'\nx = 1\n", "ok.py": "import pickle\nassert x\n"}}
+        for label, fs in sets12.items():
+            dd = os.path.join(extra_dir, label); os.makedirs(dd)
+            for nm, body in fs.items():
+                with open(os.path.join(dd, nm), "w", newline="") as fh:
+                    fh.write(body)
+            mgr = b_manager.BanditManager(b_config.BanditConfig(), "file")
+            mgr.discover_files([dd], True); mgr.run_tests(); C.take_log()
+            res.case(("extra12", label), True)
+            res.count("extra12:" + label)
+            data = mgr.metrics.data
+            tot = data.get("_totals", {})
+            blocks = {k: v for k, v in data.items() if k != "_totals"}
+            probs = {}
+            for k in set(tot) | {k for b in blocks.values() for k in b}:
+                ssum = sum(b.get(k, 0) for b in blocks.values())
+                if tot.get(k, 0) != ssum:
+                    probs["total " + k] = [tot.get(k, 0), ssum]
+            for fn, blk in blocks.items():
+                for crit, attr in (("SEVERITY", "severity"), ("CONFIDENCE", "confidence")):
+                    for rank in RANKS:
+                        want = sum(1 for r in mgr.results if r.fname == fn and getattr(r, attr) == rank)
+                        if blk.get(f"{crit}.{rank}", 0) != want:
+                            probs["%s %s.%s" % (os.path.basename(fn), crit, rank)] = [blk.get(f"{crit}.{rank}", 0), want]
+                raw = open(fn, "rb").read()
+                if blk.get("loc") != spec_loc(raw):
+                    probs["%s loc" % os.path.basename(fn)] = [blk.get("loc"), spec_loc(raw)]
+            if probs:
+                res.violation("metrics differ from the findings / the lines of the files ([metric, expected])", {"files": fs, "problems": probs, "skipped": [[os.path.basename(n), r] for n, r in mgr.skipped]})
         # ---- a run over more files than the progress threshold (50): totals are still the sums over the files (seeded change C12-m10 aggregated every 50
         #      files, and aggregate() folds the previous totals block in again)
         many = os.path.join(scratch.root, "many"); os.makedirs(many)
@@ -293,3 +328,10 @@ def run(res, ctx):
         scratch.close()
         if d is not None:
             d.close()
+
+
+def run(res, ctx):
+    import clirel
+    _run_props(res, ctx)
+    # relations between runs of the command-line tool that differ in one kind of option (harness/clirel.py): the relations this property owns
+    clirel.family(res, ctx, C, "C12", 150, 900)
